@@ -8,9 +8,9 @@ git diff > $D/patch.diff
 cp demo_seed.py $D/demo_seed.py 2>/dev/null
 echo "== tests with change"; PYTHONPATH=$WT /venv/bin/python -m pytest -q -p no:cacheprovider 2>&1 | tail -1
 echo "== demo with change"; PYTHONPATH=$WT /venv/bin/python demo_seed.py > /tmp/demo_$ID.with 2>&1; echo "exit $?"
-git stash -q
+git diff > /tmp/seedpatch_$ID.diff; git apply -R /tmp/seedpatch_$ID.diff
 echo "== demo without change"; PYTHONPATH=$WT /venv/bin/python demo_seed.py > /tmp/demo_$ID.without 2>&1; echo "exit $?"
-git stash pop -q
+git apply /tmp/seedpatch_$ID.diff
 echo "== check $ID ($TIER) against the changed tree"
 cd /verif && VERIF_REPO=$WT /verif/.venv/bin/python -m vf.checks.$(echo $ID | tr 'A-Z' 'a-z' | cut -d_ -f1) --tier $TIER > /tmp/seedrun_$ID.out 2>&1; echo "check exit $?"
 grep -c "^VIOLATION property=$CID" /tmp/seedrun_$ID.out; grep "^  key" /tmp/seedrun_$ID.out | sed "s/^  key=//; s/ .*//" | sort -u > /tmp/seedkeys_$ID.txt; grep "^  key" /tmp/seedrun_$ID.out | head -3 | cut -c1-220; tail -1 /tmp/seedrun_$ID.out
